@@ -1048,3 +1048,10 @@ M("C09-predefined-macro-keyed-by-option-text", "C09", "src/interrogate/interroga
 M("C09-benign-predefined-macro-insert", "C09", "src/interrogate/parse_file.cxx",
   "  parser._manifests[macro->_name] = macro;", "  const std::string &key = macro->_name;\n  parser._manifests[key] = macro;",
   benign=True, allow_broken=False)
+
+M("C06-template-arg-comma-needs-zero-nesting", "C06", "src/cppparser/cppPreprocessor.cxx",
+  "    case ',':\n      if (_paren_nesting <= 0) {", "    case ',':\n      if (_paren_nesting == 0) {",
+  expect="R06.7|CPPPreprocessor::internal_get_next_token|ends-argument")
+M("C06-benign-template-arg-nesting-lt-one", "C06", "src/cppparser/cppPreprocessor.cxx",
+  "    case ',':\n      if (_paren_nesting <= 0) {", "    case ',':\n      if (_paren_nesting < 1) {",
+  benign=True)
